@@ -181,7 +181,7 @@ def bigcap_scenario(rng, sid, cap):
     progs = []
     for t in range(cap):
         ops = [f'probe {rng.randrange(cap)}', 'gid', 'hbget']
-        ops.append(f'hold {6 if t in leavers else 400}')
+        ops.append(f'hold {6 if t in leavers else 120}')
         ops.append('gid')
         progs.append(ops)
     for t in range(nleave + 1):
@@ -267,7 +267,13 @@ def make_scenarios(seed, count, prefix, cap, kinds=('epoch', 'id'), long_share=0
     # manager instances - thread_local, static - would show as a difference; the harness keeps those calls out of
     # the trace, so the expected trace is exactly the one without the second manager)
     out = [with_decoy(s) if ' comp=thread ' in s and rng.random() < 0.15 else s for s in out]
+    # a client that holds a promoted copy of its own heartbeat while it asks for its ID again
+    out = [with_promote(s) if ' comp=thread ' in s and 'hbget' in s and rng.random() < 0.15 else s for s in out]
     return out
+
+
+def with_promote(text):
+    return '\n'.join(l + ' promote=1' if l.startswith('SCEN ') else l for l in text.split('\n'))
 
 
 def with_decoy(text):
